@@ -86,6 +86,9 @@ func init() {
 			fams := rules.Families(rc.P)
 			rules.K1(rc, fams, nil, 2900)
 			rules.K3(rc, nil, 150, 1700)
+			rules.K2(rc, fams, nil, 2550)
+			rules.K9(rc, fams, 120)
+			rules.K8(rc, 100)
 		},
 	})
 }
